@@ -1431,7 +1431,7 @@ void Exec::setup() {
       cfg2_xml = bw::make_bus_config(p2, bw::BusLimits(), ref);
     }
   }
-  w.start_bus(bw::make_bus_config(policy_xml, lim, extra), (int)plan.C("uniq.major", 0), (int)plan.C("uniq.minor", 0));
+  w.start_bus(bw::make_bus_config(policy_xml, lim, extra), (int)plan.C("uniq.major", 0), (int)plan.C("uniq.minor", 0), (int)plan.C("stamp.start", 0));
 }
 
 std::vector<std::string> Exec::names_of(int c) {
